@@ -41,7 +41,7 @@ class C01(HistoryProperty):
         "dictionaries are JSON, template reference graph acyclic, no @env references",
         "registrations / effect changes happen before the first evaluation (C07 owns the interleavings)",
     ]
-    QUICK = {"runs": 5000, "wall": 45}
+    QUICK = {"runs": 8000, "wall": 45}
     THOROUGH = {"runs": 400000, "wall": 540}
     NONTRIVIAL_MEASURE = "history_with_hit"
 
